@@ -9,6 +9,7 @@ package webrtc
 import (
 	"encoding/json"
 	"fmt"
+	"os"
 	"strings"
 	"testing"
 	"time"
@@ -248,6 +249,56 @@ func c18Body(t *testing.T, sc c18Scenario) (func(), *c18Obs) {
 	}, o
 }
 
+// c18Boundary — part (c): the id generator at the top of the id space. For both roles and for 0..3 ids of the
+// role's parity left free below 65535 (all lower ids of that parity marked used, as after tens of thousands of
+// channels: ids are never released), the generator is called until it refuses: every id it hands out has the
+// role's parity, is below 65535 and was free; afterwards it keeps refusing.
+func c18Boundary(c *vkit.Check) {
+	for _, role := range []DTLSRole{DTLSRoleClient, DTLSRoleServer} {
+		parity := uint16(0)
+		if role != DTLSRoleClient {
+			parity = 1
+		}
+		for free := 0; free <= 3; free++ {
+			tr := &SCTPTransport{dataChannelIDsUsed: map[uint16]struct{}{}}
+			// ids of the parity that may still be handed out: the `free` largest ones below 65535
+			top := uint32(65534) // largest id that is not 65535
+			if uint16(top)%2 != parity {
+				top--
+			}
+			firstFree := top - 2*uint32(free) + 2 // ids >= firstFree (of the parity) stay free
+			for id := uint32(parity); id < firstFree; id += 2 {
+				tr.dataChannelIDsUsed[uint16(id)] = struct{}{} //nolint:gosec
+			}
+			var got []uint16
+			for call := 0; call < free+2; call++ {
+				var id *uint16
+				err := tr.generateAndSetDataChannelID(role, &id)
+				c.Eval()
+				if err != nil || id == nil {
+					continue
+				}
+				rep := map[string]any{"part": "boundary", "role": role.String(), "free_ids_below_65535": free, "handed_out": append(got, *id)}
+				switch {
+				case *id == 65535:
+					c.Violation("boundary|id-65535|role="+role.String(), fmt.Sprintf("with every id of its parity below %d in use the generator handed out 65535 (role %s)", firstFree, role), rep)
+				case *id%2 != parity:
+					c.Violation("boundary|parity|role="+role.String(), fmt.Sprintf("role %s was handed id %d", role, *id), rep)
+				case uint32(*id) < firstFree:
+					c.Violation("boundary|duplicate|role="+role.String(), fmt.Sprintf("id %d was already in use (role %s)", *id, role), rep)
+				}
+				for _, g := range got {
+					if g == *id {
+						c.Violation("boundary|duplicate|role="+role.String(), fmt.Sprintf("id %d handed out twice (role %s)", *id, role), rep)
+					}
+				}
+				got = append(got, *id)
+			}
+			c.Distinct(fmt.Sprintf("boundary|role=%s|free=%d|handed-out=%d", role, free, len(got)))
+		}
+	}
+}
+
 func TestVerifC18(t *testing.T) {
 	c := vkit.New("C18", "model_checking")
 	defer c.Finish(t)
@@ -261,8 +312,11 @@ func TestVerifC18(t *testing.T) {
 		{"client", []string{"create", "create", "connect"}, false, []uint16{0, 2}},
 		{"server", []string{"create", "remote", "create"}, true, []uint16{1, 3}},
 	}
-	c.Rule(fmt.Sprintf("(a) both DTLS roles x the full tree of histories to depth %d over %v (default schedule, scheduler quiescence and a full id audit after every step); (b) %d concurrent scenarios (2-3 threads creating channels, starting SCTP, peer-opened channel; explicit ids taken beforehand), every schedule with <= 2 (quick) / 3 (thorough) departures from the default schedule plus every interleaving with 0-1(2) preemptions where tractable; oracle: every id generated by pion has the role's parity, is not 65535, is not held by another channel, and an id once set never changes; distinct = (role, history/scenario, resulting id assignment)", depth, c18Ops, len(scs)))
+	c.Rule(fmt.Sprintf("(a) both DTLS roles x the full tree of histories to depth %d over %v (default schedule, scheduler quiescence and a full id audit after every step); (b) %d concurrent scenarios (2-3 threads creating channels, starting SCTP, peer-opened channel; explicit ids taken beforehand), every schedule with <= 2 (quick) / 3 (thorough) departures from the default schedule plus every interleaving with 0-1(2) preemptions where tractable; (c) the id generator at the top of the id space (0..3 ids of the role's parity left free below 65535) called until it refuses; oracle: every id generated by pion has the role's parity, is not 65535, is not held by another channel, and an id once set never changes; distinct = (role, history/scenario, resulting id assignment)", depth, c18Ops, len(scs)))
 	c.Assume("pion/sctp and pion/datachannel are environment fakes; ids chosen by the user or by the peer are recorded as used but not judged; the peer uses ids of its own parity")
+	if os.Getenv("VERIF_REPLAY") == "" {
+		c18Boundary(c)
+	}
 	if raw, ok := c.ReplayCase(); ok {
 		var rc struct {
 			Role     string      `json:"role"`
